@@ -143,8 +143,9 @@ func WithNewState(enabled bool) Option {
 
 // WithRunningEventFilterInitializer overrides the initializer used to lazily
 // bring up the running event filter. Defaults to
-// [core.InitializeRunningEventFilter]; pass pruner.InitializeRunningEventFilter
-// on pruning nodes.
+// [pruner.InitializeRunningEventFilter], which honours the retention floor found
+// in the database and equals [core.InitializeRunningEventFilter] on a database
+// that was never pruned.
 func WithRunningEventFilterInitializer(initialize core.RunningEventFilterInitializer) Option {
 	return func(o *options) {
 		o.runningFilterInitialize = initialize
@@ -164,7 +165,10 @@ func New(database db.KeyValueStore, network *networks.Network, opts ...Option) *
 	o := options{
 		listener:                &SelectiveListener{},
 		stateVersion:            false,
-		runningFilterInitialize: core.InitializeRunningEventFilter,
+		// The floor-aware initializer: a database pruned by an earlier run can be opened
+		// by a node without --prune-mode (e.g. with --disable-sync), and the initializer
+		// that ignores the floor would walk back to pruned headers and fail for good.
+		runningFilterInitialize: pruner.InitializeRunningEventFilter,
 		retentionFloor:          &pruner.RetentionFloor{},
 	}
 	for _, opt := range opts {
